@@ -116,4 +116,11 @@ SHAPES = {
   "filter-raises:region-with-position:percent-extent": shape_position_percent_extent,
   "filter-raises:region-with-position:no-extent": shape_position_no_extent,
   "position:root-relative-extent": shape_position_root_relative_extent,
+  "filter-raises:no-body-with-bg_color": shape_no_body,
+}
+# configuration fields other than safe_area (which is the quantified variable), per shape
+CONFIG = {
+  "filter-raises:no-body-with-bg_color": dict(bg_color=sp.NamedColors.black.value, color=sp.NamedColors.yellow.value, preserve_text_align=True),
+  "two-regions": dict(bg_color=sp.NamedColors.black.value, color=sp.NamedColors.yellow.value),
+  "percent": dict(preserve_text_align=True),
 }
